@@ -634,6 +634,7 @@ def main():
         r = subprocess.run([bins[f], "--selfcheck"], stdout=subprocess.PIPE, stderr=subprocess.STDOUT, text=True)
         if r.returncode != 0:
             harness_error("oracle self-check failed in %s: %s" % (f, r.stdout.strip()[-500:]))
+        infos[f]["per_member_tls"] = "per_member_tls=1" in r.stdout
 
     lim = dict(maxlog=T["maxlog"], maxlog_tree=T["maxlog_tree"], max_copy=T["max_copy"])
     nruns = int(os.environ.get("VERIF_RUNS", T["runs"][prop]))
@@ -922,6 +923,7 @@ def write_evidence(prop, tier, seed, sweeps, infos, gate_checked, violations, kn
             "per_flavour": per_flavour,
             "components": {
                 "real_code": ["every translation unit of /repo/src (" + ", ".join(infos[sweeps[0].flavour]["repo_units"]) + ") and all headers, compiled from the working tree; header-inline code through sim/shim.cpp"],
+                "per_member_thread_local_storage": {f: bool(infos[f].get("per_member_tls")) for f in infos},
                 "stubbed": ["OpenMP runtime (sim/simrt.cpp instead of libgomp)", "memcpy/memset/memmove of repo objects (recording wrappers forwarding to libc)",
                             "malloc/free/operator new[]/delete of repo objects in the tsh flavours (garbage fill, canaries, allocator-kind bookkeeping, then libc)"],
             },
